@@ -9,7 +9,7 @@ U = Fraction(1, 2 ** 53)
 
 
 def knot_seq(rng, n):
-    style = rng.choice(["monotone", "oscillating", "plateau", "collinear", "nearly_collinear", "uneven", "offset", "random", "zigzag", "gentle", "huge", "tiny_scale", "origin"])
+    style = rng.choice(["monotone", "oscillating", "plateau", "collinear", "nearly_collinear", "uneven", "offset", "random", "zigzag", "gentle", "huge", "tiny_scale", "origin", "signed_zero_plateau", "tiny_osc"])
     xs = []
     x = rng.choice([0.0, rng.uniform(-2, 2)])
     if style == "offset":
@@ -54,6 +54,15 @@ def knot_seq(rng, n):
             xs[i] = xs[i - 1] + steps[i]
         for i in range(j - 1, -1, -1):
             xs[i] = xs[i + 1] - steps[i]
+    if style in ("signed_zero_plateau", "tiny_osc"):
+        if style == "signed_zero_plateau":
+            # plateaus AT zero whose ordinates are zeros of either sign (slopes +0.0 / -0.0), between ordinary pieces
+            ys = [rng.choice([0.0, -0.0, 0.0, -0.0, 1.0, -2.0]) for _ in xs]
+        else:
+            # genuine sign changes whose slope product underflows to a signed zero
+            sc = rng.choice([1e-170, 1e-165, 3e-180, 1e-200])
+            ys = [sc * rng.choice([1.0, -1.0, 2.0, -0.5]) * (1 if i % 2 else -1) for i in range(len(xs))]
+        return style, [[C.bits(a), C.bits(b)] for a, b in zip(xs, ys)]
     ys = []
     y = rng.uniform(-3, 3)
     s_lin = rng.choice([0.5, -2.0, 1.0 / 3.0, 1e-8, 3.0])
@@ -125,7 +134,9 @@ def spline_float(ks):
     s = [div(Y[i + 1] - Y[i], X[i + 1] - X[i]) for i in range(n - 1)]
     f = [0.0] * n
     for j in range(1, n - 1):
-        f[j] = 0.0 if s[j - 1] * s[j] <= 0.0 else div(2.0, div(1.0, s[j - 1]) + div(1.0, s[j]))
+        a_, b_ = s[j - 1], s[j]
+        flat = a_ == 0.0 or b_ == 0.0 or (a_ < 0.0 and b_ > 0.0) or (a_ > 0.0 and b_ < 0.0)
+        f[j] = 0.0 if flat else div(2.0, div(1.0, a_) + div(1.0, b_))
     f[0] = div(1.5 * (Y[1] - Y[0]), X[1] - X[0]) - 0.5 * f[1]
     f[n - 1] = div(1.5 * (Y[n - 1] - Y[n - 2]), X[n - 1] - X[n - 2]) - 0.5 * f[n - 2]
     out = []
@@ -156,7 +167,7 @@ class P(Prop):
     ID = "C04"
     MODULE = "C04"
     THEOREMS = ["C04_end", "C04_hermite", "C04_fdx_flat", "C04_fdx_harmonic", "C04_end_slopes", "C04_segments", "C04_interior_slopes", "C04_count",
-                "C04_coefficient_float", "C04_cubic_deviation", "C04_interpolation_float", "C04_float_hypotheses_hold"]
+                "C04_coefficient_float", "C04_cubic_deviation", "C04_interpolation_float", "C04_interior_is_composition", "C04_interior_float", "C04_float_hypotheses_hold", "C04_interior_hypotheses_hold"]
     KERNELS = ["spline::f_dx", "spline::segment", "spline::f_x0", "spline::f_xn"]
     RULE = ("constrained_spline on 3..12 (thorough ..100) knots with strictly increasing x: monotone, oscillating, zig-zag, plateaued, "
             "collinear, nearly collinear, unevenly spaced (gap ratios up to 2^12), offset up to 2^20, a knot exactly at 0, abscissae in units of 1e-17..2^-80 (every dx << eps), gentle slopes (~1e-8), ordinates up to 1.1e308 over wide intervals "
@@ -195,6 +206,11 @@ class P(Prop):
         # err_run against the exact deviation, in rational arithmetic
         if case["op"] == "k" and case["name"] == "spline::segment":
             return "hyp_safe_run_dev (tl %s) %s" % (C.kname(case["name"]), C.zlist(case["args"]))
+        if case["op"] == "spline" and len(case["knots"]) >= 4 and case["meta"].get("class") not in ("spline/malformed", "spline/rejected") \
+                and self.ID == "C04" and (sum(case["knots"][0]) % 6 == 0):
+            # end to end (C04_interior_float): the first interior cubic of a generated spline, from its four knots
+            flat = [b for kn in case["knots"][:4] for b in kn]
+            return "hyp_safe_run_dev (map interior_e [1;2;3;4]%%nat) %s" % C.zlist(flat)
         return None
 
     def coq_term(self, case, h):
